@@ -26,14 +26,29 @@ def parseLoc : Sexp → Option Loc
 
 def okStr (r : Rendered) : String := if r.isOk then "ok" else "crash"
 
-def handleLocs (l r : Loc) (src : List Char) : String × String :=
+/-- the implementation's `(concat <loc>)` answer, if it can be read -/
+def implConcat (impl : String) : Option Loc :=
+  match Sexp.parseAll impl.toList with
+  | some (.list [.atom "concat", x] :: _) => parseLoc x
+  | _ => none
+
+def handleLocs (l r : Loc) (src : List Char) (impl : String) : String × String :=
   let lines := linesOf src
   let c := concat l r
   let out := s!"(concat {locSexp c}) (lmc {locSexp (leftMainConcat l r)}) (stream {locSexp (stream [l, r])}) (render-l {okStr (render lines l)}) (render-c {okStr (render lines c)})"
   let v :=
     if inside lines l && !(render lines l).isOk then "viol:inside-location-crashes-renderer"
     else if inside lines l && inside lines r && orderedAny l r && !(inside lines c && (render lines c).isOk) then "viol:concat-not-inside"
-    else "ok"
+    else
+      -- the same demand on the implementation's own answer
+      let has (p : String) : Bool := (impl.splitOn p).length > 1
+      match implConcat impl with
+      | some ci =>
+        if inside lines l && inside lines r && orderedAny l r && !(inside lines ci) then "viol:concat-not-inside(impl)"
+        else if inside lines l && has "(render-l crash)" then "viol:inside-location-crashes-renderer(impl)"
+        else if inside lines ci && has "(render-c crash)" then "viol:inside-location-crashes-renderer(impl)"
+        else "ok"
+      | none => if impl.isEmpty then "ok" else "viol:impl-output-unparsable"
   (out, v)
 
 def handleProg (src name : List Char) (impl : String) : String × String × String :=
@@ -62,7 +77,7 @@ def handle (line : String) : String :=
     match Sexp.parse input with
     | some (.list [.atom "locs", l, r, .list [.atom "src", .str s]]) =>
       match parseLoc l, parseLoc r with
-      | some l, some r => let (o, v) := handleLocs l r s; id ++ "\t" ++ o ++ "\t" ++ v ++ "\t-"
+      | some l, some r => let (o, v) := handleLocs l r s (rest.headD ""); id ++ "\t" ++ o ++ "\t" ++ v ++ "\t-"
       | _, _ => id ++ "\tbad-input\t-\t-"
     | some (.list [.atom "prog", .list [.atom "src", .str s], .list [.atom "name", .str n]]) =>
       let (o, v, k) := handleProg s n (rest.headD "")
